@@ -20,7 +20,9 @@
   back as the term (by induction on the nesting, from the several-argument and several-element theorems of C20).
   FACTS round-trip too — `facts_round_trip` (`Lemmas/RoundTripFact.lean`): `fn(T1, ..., Tn).` over canonical arguments is read by
   `parse_rule` as the rule with that head and no body and printed as that text (a canonical text has no colon, so no neck).
-  The round trip for the other terms (quoted atoms, floats, atoms with other characters), goals and rules with bodies is decided on every run by the
+  UNIFICATION GOALS round-trip — `unification_goals_round_trip`: `T = R` over canonical terms is read by `parse_subgoal` as the
+  unification of the two terms and printed as that text (`Lemmas/CanonInfix.lean`).
+  The round trip for the other terms (quoted atoms, floats, atoms with other characters), the other goals and rules with bodies is decided on every run by the
   correspondence suite (grammar stream: text rendered by the harness' own renderer must parse
   to the denoted value, print back as the same text, and re-parse to the same value; the model's
   parser AND printer are compared with the implementation's on each of these cases).
@@ -29,6 +31,7 @@ import SuironVerif.Model.ParseGoal
 import SuironVerif.Lemmas.ParseInt
 import SuironVerif.Lemmas.RoundTrip
 import SuironVerif.Lemmas.RoundTripFact
+import SuironVerif.Lemmas.CanonInfix
 namespace Suiron.C19
 open Suiron.Parse
 
@@ -136,6 +139,23 @@ theorem zero_arity_facts_round_trip (po : POps) (sf : UInt64 → String) {fn : T
   show (Term.show sf (.cplx (.cons (.atom (str fn)) .nil)) ++ ".").toList = fn ++ ['(', ')'] ++ ['.']
   rw [String.toList_append, this]
   rfl
+
+/-- UNIFICATION GOALS: for canonical terms `T` and `R` the goal text `T = R` is read by `parse_subgoal` as the unification of
+    the two terms, and that goal is printed as the same text -/
+theorem unification_goals_round_trip (po : POps) (sf : UInt64 → String) (hα : ∀ c, isLetter c = true → po.isAlpha c = true)
+    {d : Nat} {T R : Text} {t r : Term} (hT : Canon d T t) (hR : Canon d R r) (f : Nat) :
+    let g : Goal := .bip "unify" (some (.cons t (.cons r .nil)))
+    parseSubgoal po (3 * d + 3 + f + 1) (T ++ ' ' :: '=' :: ' ' :: R) = .ok g ∧
+    showGoal sf g = .ok (Term.show sf t ++ " = " ++ Term.show sf r) ∧
+    (Term.show sf t ++ " = " ++ Term.show sf r).toList = T ++ ' ' :: '=' :: ' ' :: R := by
+  intro g
+  have hIR := canon_inv hR
+  refine ⟨?_, show_unify sf t r, ?_⟩
+  · rw [canon_as_infix_operand po hα hT f hIR.trimmed hIR.nonempty, parse_canon po hα hR f]
+    rfl
+  · simp only [String.toList_append, show_canon sf hT, show_canon sf hR]
+    have : " = ".toList = [' ', '=', ' '] := rfl
+    rw [this]; simp
 
 /-- non-vacuity: `loves(Ann, friend($X, -42))` is canonical, two levels deep -/
 example : Canon 2 "loves(Ann, friend($X, -42))".toList
